@@ -112,6 +112,8 @@ func ProcChildMain() int {
 				// wait until the request is in the receive queue, then leave without reading it: closing a socket with unread
 				// data resets the association (ECONNRESET at the peer, not end-of-file)
 				syscall.Recvfrom(mine, buf[:1], syscall.MSG_PEEK)
+				reallyClose()
+				amf.MarkFaultDone()
 				return
 			}
 			n, err := syscall.Read(mine, buf)
@@ -138,14 +140,16 @@ func ProcChildMain() int {
 	var emitOnce sync.Once
 	go func() {
 		last, since := -1, time.Now()
-		quiet := 25*time.Second + refamf.LateBy(sp.FaultKind)
+		quiet := 25 * time.Second // counted from the last message or from the moment the fault took effect
 		for {
 			time.Sleep(200 * time.Millisecond)
-			if act := amf.Activity(); act != last {
+			act, quietSince, delivered := amf.Quiet()
+			if act != last {
 				last, since = act, time.Now()
-			} else if time.Since(since) > quiet && sp.FaultAt < 0 {
-				// a conformant, quiescent network and a procedure that does not come back: stuck, not slow (the longest pause a
-				// procedure makes on its own is one second)
+			} else if delivered && time.Since(since) > quiet && time.Since(quietSince) > quiet && asleepInRecv(theirs) {
+				// a quiescent network (conformant, or one whose fault has taken effect) and a procedure that does not come back:
+				// stuck, not slow - the longest pause a procedure makes on its own is one second, and the thread that runs it
+				// is ASLEEP in its read (two looks one second apart), not waiting for a processor
 				emitOnce.Do(func() {
 					res.Done, res.Stuck = true, true
 					emit()
@@ -217,6 +221,14 @@ func ProcChildMain() int {
 		emit()
 	})
 	return 0
+}
+
+func asleepInRecv(fd int) bool {
+	if !procdrv.ThreadAsleepInRecv(os.Getpid(), fd) {
+		return false
+	}
+	time.Sleep(time.Second)
+	return procdrv.ThreadAsleepInRecv(os.Getpid(), fd)
 }
 
 // runProcChild executes a ProcSpec in a child process and returns the parsed result (nil when the child died before
